@@ -18,6 +18,12 @@ are uninterpreted functions with exactly the facts listed in TRUSTED; every obli
     caches were filled; interleaving: somebody reads id / raw of the half-signed transaction while sign awaits the key
     lookup); afterwards raw / id are those of the signed transaction; an address without a wallet key is
     refused (AssertionError) and nothing else is raised.  [sign]
+  * `Transaction.sign(accounts, extra_keys)` with a time-locked script-hash input (`InputScript.redeem_time_lock_script_hash`
+    with the redeem script supplied and parsed by the real parser, lock heights of every script-number width) next to
+    ordinary wallet inputs, in both orders, alone, and a stray extra key on two ordinary inputs: every P2PKH input is
+    still signed by the wallet key of ITS OWN address (hash160(pubkey) == spent hash); the time-locked input becomes
+    <sig||01> <pubkey> <redeem script> with the supplied key over the pre-image that carries the redeem script.
+    [sign.extra-keys]
   * channel signing `Output.sign` then `Output.is_signed_by` (with `claim_hash`, `TXORef.hash`, `signable`, `claim`,
     `support`, `set_channel_private_key`, `Signable.to_bytes/__len__/__bytes__`, `Claim.channel`,
     `Channel.public_key_bytes`, `is_signature_valid`, `get_signature_digest`, the real `PrivateKey.sign_compact` and
@@ -868,6 +874,141 @@ def _sign_proof():
 _sign_proof()
 
 
+# ---- Transaction.sign(funding_accounts, extra_keys): a time-locked script-hash input next to ordinary wallet inputs
+
+def script_num(n):
+    """SPEC: Bitcoin script number of a positive integer: minimal little-endian bytes with a sign bit (BIP 65 operand)"""
+    if n < 0x80:
+        return le(n, 1)
+    if n < 0x8000:
+        return le(n, 2)
+    if n < 0x800000:
+        return le(n, 3)
+    if n < 0x80000000:
+        return le(n, 4)
+    return le(n, 5)
+
+
+def time_lock_script_spec(height, pubkey_hash):
+    """SPEC: <height> OP_CHECKLOCKTIMEVERIFY OP_DROP OP_DUP OP_HASH160 <pubkey hash> OP_EQUALVERIFY OP_CHECKSIG"""
+    return push(script_num(height)) + b'\xb1\x75' + p2pkh(pubkey_hash)
+
+
+EXTRA_SHAPES = ((('t', 'p'), True), (('p', 't'), True), (('p', 'p'), True), (('t',), True))
+
+
+def _sign_extra_proof():
+    types = dict(shape=TOneOf(*[TConst(x) for x in EXTRA_SHAPES]), version=U32, locktime=U32, height=TInt(1, 2 ** 31 - 1),
+                 k0=TBytes(length=32), k1=TBytes(length=32), k2=TBytes(length=32))
+    for i in range(2):
+        types.update({f"h{i}": HASH, f"pos{i}": U32, f"ph{i}": H160, f"seq{i}": U32})
+    types.update(amt0=U64, os0=SMALL)
+
+    def requires(**kw):
+        return valid_secret(kw['k0']) and valid_secret(kw['k1']) and valid_secret(kw['k2']) \
+            and kw['h0'] != NULL_HASH32 and kw['h1'] != NULL_HASH32
+
+    async def run(**kw):
+        kinds, with_extra = kw['shape']
+        keys = [PrivateKey.from_bytes(None, kw['k0']), PrivateKey.from_bytes(None, kw['k1'])]
+        ledger = WalletLedger(keys)
+        account = WalletAccount(ledger, 'wallet')
+        tx = Transaction(version=kw['version'], locktime=kw['locktime'])
+        inputs = []
+        for i in range(len(kinds)):
+            if kinds[i] == 'p':
+                spent = Output.pay_pubkey_hash(1000 + i, kw[f"ph{i}"])
+                script = InputScript.redeem_pubkey_hash(Input.NULL_SIGNATURE, Input.NULL_PUBLIC_KEY)
+            else:
+                # an output locked until `height` to the key hash ph_i, paid to the hash of that script; the spender supplies the script
+                redeem = time_lock_script_spec(kw['height'], kw[f"ph{i}"])
+                spent = Output.pay_script_hash(1000 + i, hash160(redeem))
+                script = InputScript.redeem_time_lock_script_hash(Input.NULL_SIGNATURE, Input.NULL_PUBLIC_KEY, script_source=redeem)
+            spent.tx_ref = TXRefImmutable.from_hash(kw[f"h{i}"], -1)
+            spent.position = kw[f"pos{i}"]
+            inputs.append(Input(spent.ref, script, kw[f"seq{i}"]))
+        tx.add_inputs(inputs)
+        tx.add_outputs([Output(kw['amt0'], OutputScript(kw['os0']))])
+        extra = {'address of the extra key': PrivateKey.from_bytes(None, kw['k2'])} if with_extra else None
+        await tx.sign([account], extra)
+        scripts = [(txi.script.values['signature'], txi.script.values['pubkey'], txi.script.source) for txi in tx.inputs]
+        return scripts, tx.raw, tx.id
+
+    def unpack(kw):
+        ins = [(kw[f"h{i}"], kw[f"pos{i}"], b'', kw[f"seq{i}"]) for i in range(len(kw['shape'][0]))]
+        return ins, [(kw['amt0'], kw['os0'])]
+
+    def ensures_every_input_signed_by_the_key_for_what_it_spends(result, **kw):
+        kinds = kw['shape'][0]
+        ins, outs = unpack(kw)
+        ok = len(result[0]) == len(kinds)
+        for i in range(len(kinds)):
+            sig, pub, source = result[0][i]
+            if kinds[i] == 'p':
+                # an ordinary wallet input: the wallet key of ITS address, whatever extra keys were handed in
+                digest = double_sha256(sighash_all_preimage(kw['version'], ins, outs, kw['locktime'], i, p2pkh(kw[f"ph{i}"])))
+                ok = ok and ((pub == pub_of(kw['k0']) and sig == der_sign(kw['k0'], digest) + b'\x01')
+                             or (pub == pub_of(kw['k1']) and sig == der_sign(kw['k1'], digest) + b'\x01'))
+                ok = ok and hash160(pub) == kw[f"ph{i}"] and source == push(sig) + push(pub)
+            else:
+                # the time-locked input: the supplied key, over the pre-image that carries the REDEEM script (P2SH rule)
+                redeem = time_lock_script_spec(kw['height'], kw[f"ph{i}"])
+                digest = double_sha256(sighash_all_preimage(kw['version'], ins, outs, kw['locktime'], i, redeem))
+                ok = ok and pub == pub_of(kw['k2']) and sig == der_sign(kw['k2'], digest) + b'\x01'
+                ok = ok and source == push(sig) + push(pub) + push_data_spec(redeem)
+        return ok
+
+    def ensures_serialisation_and_id_are_those_of_the_signed_transaction(result, **kw):
+        ins, outs = unpack(kw)
+        signed = [(ins[i][0], ins[i][1], result[0][i][2], ins[i][3]) for i in range(len(ins))]
+        raw = enc_tx(kw['version'], signed, outs, kw['locktime'])
+        return result[1] == raw and result[2] == hexlify(sha256(sha256(raw))[::-1]).decode()
+
+    def unknown_address(**kw):
+        kinds = kw['shape'][0]
+        known = [hash160(pub_of(kw['k0'])), hash160(pub_of(kw['k1']))]
+        bad = False
+        for i in range(len(kinds)):
+            bad = bad or (kinds[i] == 'p' and kw[f"ph{i}"] not in known)
+        return bad
+
+    def samples():
+        secrets = [bytes([7]) * 32, (N - 1).to_bytes(32, 'big'), bytes([8]) * 32]
+        hashes = [hash160(pub_of(k)) for k in secrets]
+        for shape in EXTRA_SHAPES:
+            for height in (1, 127, 128, 210, 32767, 32768, 717738, 2 ** 31 - 1):
+                d = dict(shape=shape, version=1, locktime=height, height=height, k0=secrets[0], k1=secrets[1], k2=secrets[2],
+                         amt0=1000, os0=bytes((k * 7 + 2) % 256 for k in range(25)))
+                for i in range(2):
+                    kind = shape[0][i] if i < len(shape[0]) else 'p'
+                    d.update({f"h{i}": bytes([i + 1]) * 32, f"pos{i}": i, f"ph{i}": hashes[2] if kind == 't' else hashes[(i + height) % 2],
+                              f"seq{i}": 0xFFFFFFFE})
+                yield d
+        d = dict(d, shape=EXTRA_SHAPES[0])
+        d['ph1'] = hashes[2]          # the ordinary input pays to the extra key's address, which is NOT a wallet address
+        yield d
+
+    names = list(types)
+    body = dict(inputs=types, timeout=6, requires=staticmethod(_with_signature(requires, names)),
+                run=staticmethod(_with_signature(run, names)), samples=staticmethod(samples),
+                raises={AssertionError: _with_signature(unknown_address, names)},
+                ensures_every_input_signed_by_the_key_for_what_it_spends=staticmethod(_with_signature(
+                    ensures_every_input_signed_by_the_key_for_what_it_spends, names, True)),
+                ensures_serialisation_and_id_are_those_of_the_signed_transaction=staticmethod(_with_signature(
+                    ensures_serialisation_and_id_are_those_of_the_signed_transaction, names, True)),
+                note="shapes [time-lock, P2PKH], [P2PKH, time-lock], [P2PKH, P2PKH] + stray extra key, [time-lock] x lock heights at every "
+                     "script-number width x both wallet keys; an ordinary input paying to the extra key's (non-wallet) address",
+                __doc__="Transaction.sign(accounts, extra_keys) with a time-locked script-hash input next to ordinary inputs: every P2PKH "
+                        "input is still signed by the wallet key of ITS OWN address (hash160(pubkey) == spent hash) whatever extra keys "
+                        "are supplied; the time-locked input carries <sig||01> <pubkey> <redeem script> made with the supplied key over "
+                        "the pre-image holding the redeem script (that the supplied key matches the hash inside the lock is the "
+                        "caller's obligation)")
+    proof("C04", "sign.extra-keys")(type('SignExtraKeys', (), body))
+
+
+_sign_extra_proof()
+
+
 # ====================================================================================================================
 # (c) channel signatures
 # ====================================================================================================================
@@ -1242,15 +1383,25 @@ def input_problems(raw, spent_scripts):
         return ['input count differs']
     for i, (h, pos, script, seq) in enumerate(ins):
         items = script_items(script)
+        spent = spent_scripts[i]
+        script_code = spent
+        if len(spent) == 23 and spent[:2] == b'\xa9\x14' and spent[-1:] == b'\x87':
+            # pay-to-script-hash (BIP 16): the last push is the redeem script, which must hash to the spent output's hash, is
+            # what gets signed, and (a time lock: ... OP_DUP OP_HASH160 <20> OP_EQUALVERIFY OP_CHECKSIG) names the key hash
+            if len(items) != 3 or not all(isinstance(x, bytes) for x in items):
+                problems.append(f'input {i}: script-hash spend is not <sig> <pubkey> <redeem script>')
+                continue
+            script_code = items.pop()
+            if hash160_independent(script_code) != spent[2:22]:
+                problems.append(f'input {i}: redeem script does not hash to what the spent output pays to')
         if len(items) != 2 or not all(isinstance(x, bytes) for x in items):
             problems.append(f'input {i}: script is not two pushes')
             continue
         sig, pub = items
-        spent = spent_scripts[i]
-        if spent[-25:-22] != b'\x76\xa9\x14' or spent[-2:] != b'\x88\xac':
+        if script_code[-25:-22] != b'\x76\xa9\x14' or script_code[-2:] != b'\x88\xac':
             problems.append(f'input {i}: spent script does not end in pay-to-pubkey-hash')
             continue
-        if hash160_independent(pub) != spent[-22:-2]:
+        if hash160_independent(pub) != script_code[-22:-2]:
             problems.append(f'input {i}: public key does not hash to what the spent output pays to')
         if sig[-1:] != b'\x01':
             problems.append(f'input {i}: hash type byte is not SIGHASH_ALL')
@@ -1259,7 +1410,7 @@ def input_problems(raw, spent_scripts):
         except (ValueError, IndexError) as e:
             problems.append(f'input {i}: signature is not DER ({e})')
             continue
-        pre = sighash_all_preimage(version, [(a, b, b'', d) for (a, b, c, d) in ins], outs, locktime, i, spent)
+        pre = sighash_all_preimage(version, [(a, b, b'', d) for (a, b, c, d) in ins], outs, locktime, i, script_code)
         if not py_ecdsa_verify_rs(pub, r, s, sha256d_independent(pre)):
             problems.append(f'input {i}: signature does not verify under the SIGHASH_ALL digest')
     return problems
@@ -1381,6 +1532,60 @@ def signable_output(kind, holder):
     return Output.pay_claim_name_pubkey_hash(1000, 'foo', rich_claim(kind), holder)
 
 
+def time_lock_case(variant):
+    """Transaction.sign(accounts, extra_keys) on the real wallet: 0 the daemon's account_deposit flow with a time-locked output
+    worth less than its spending cost (coin selection adds wallet outputs next to it), 1 inputs built by hand [wallet, time lock,
+    wallet], 2 ordinary wallet inputs with a stray extra key, 3 the deposit flow with a lock that pays for itself (one input)"""
+    import asyncio
+    import shutil
+    from lbry.wallet.constants import CENT, COIN
+
+    async def go():
+        d, ledger, a, b, ha, hb = await real_wallet()
+        try:
+            problems = []
+            extra_secret = bytes([123]) * 32                        # the key the lock pays to: NOT a key of this wallet
+            extra = PrivateKey.from_bytes(ledger, extra_secret)
+            height = (210, 717738, 127, 32768)[variant]
+            redeem = time_lock_script_spec(height, hash160_independent(pub_of(extra_secret)))
+            locked = Transaction(height=5).add_outputs([Output.pay_pubkey_hash(1, ha[1]), Output.pay_script_hash(
+                1000 if variant == 0 else COIN, hash160_independent(redeem))]).outputs[1]
+            scripts = {(locked.tx_ref.hash, 1): bytes(locked.script.source)}
+            funding = Transaction(is_verified=True, height=5).add_inputs([Input.spend(
+                Transaction().add_outputs([Output.pay_pubkey_hash(10 * COIN, NULL_HASH32)]).outputs[0])])
+            owned = [Output.pay_pubkey_hash(COIN // 4, (ha if i % 2 else hb)[i + 1]) for i in range(4)]
+            funding.add_outputs(owned)
+            await ledger.db.insert_transaction(funding)
+            for u in owned:
+                await ledger.db.save_transaction_io(funding, ledger.hash160_to_address(u.script.values['pubkey_hash']),
+                                                    u.script.values['pubkey_hash'], '')
+                scripts[(funding.hash, u.position)] = bytes(u.script.source)
+            if variant in (0, 3):
+                tx = await Transaction.spend_time_lock(locked, redeem, a)
+                if (len(tx.inputs) > 1) != (variant == 0):
+                    problems.append('the case does not have the inputs it claims to exercise')
+            elif variant == 1:
+                tx = Transaction(locktime=height).add_inputs([Input.spend(owned[0]), Input.spend_time_lock(locked, redeem),
+                                                              Input.spend(owned[1])])
+                tx.add_outputs([Output.pay_pubkey_hash(CENT, b'\x09' * 20)])
+            else:
+                tx = Transaction().add_inputs([Input.spend(owned[2]), Input.spend(owned[3])])
+                tx.add_outputs([Output.pay_pubkey_hash(CENT, b'\x09' * 20)])
+            await tx.sign([a, b], {extra.address: extra})
+            raw = bytes(tx.raw)
+            spent = [scripts[(i.txo_ref.tx_ref.hash, i.txo_ref.position)] for i in tx.inputs]
+            problems += input_problems(raw, spent)
+            if tx.id != sha256d_independent(raw)[::-1].hex():
+                problems.append('id is not the double SHA-256 of the signed serialisation')
+            if variant != 2 and parse_tx(raw)[3] != height:
+                problems.append('lock time of the spending transaction is not the lock height')
+            return problems
+        finally:
+            await ledger.db.close()
+            shutil.rmtree(d, ignore_errors=True)
+    return asyncio.run(go())
+
+
 @proof("C04", "real.transaction-sign")
 class RealTransactionSign:
     """BOUNDED stand-in on the real Ledger + Database (sqlite) + two Accounts and real coincurve keys: transactions with 1..4
@@ -1390,14 +1595,18 @@ class RealTransactionSign:
     parser + SIGHASH_ALL digest + ECDSA verifier; signing again and signing after a later change of the outputs"""
     bounded_only = True
     note = "1..4 inputs x 6 output mixes, alternately signed directly / funded from the database by coin selection: 24 " \
-           "transactions, each verified three times (signed, re-signed, changed and re-signed) plus one negative control"
-    inputs = dict(case=TInt(0, 23))
+           "transactions, each verified three times (signed, re-signed, changed and re-signed) plus one negative control; 4 " \
+           "transactions signed with extra_keys (time-locked script-hash input alone, next to wallet inputs added by coin " \
+           "selection, between hand-picked wallet inputs; a stray extra key on ordinary inputs)"
+    inputs = dict(case=TInt(0, 27))
 
     def run(case):
         import asyncio
         import shutil
         from lbry.schema.purchase import Purchase
         from lbry.wallet.constants import CENT, COIN
+        if case >= 24:
+            return time_lock_case(case - 24)
         n_in, mix, funded = 1 + case % 4, (case // 4) % 6, (case // 4 + case) % 2 == 1
 
         async def go():
@@ -1489,6 +1698,8 @@ class RealTransactionSign:
         return result == []
 
     def samples():
+        for case in (24, 25, 26, 27):           # extra_keys: a time-locked script-hash input next to wallet inputs
+            yield dict(case=case)
         for k in range(24):
             yield dict(case=(k * 7) % 24)       # a fixed permutation: every dimension early if the time budget cuts the run
 
@@ -1782,8 +1993,9 @@ NOT_DECIDED = [
     "agreement with an independent secp256k1 implementation for ALL keys and transactions (assumed via TRUSTED; exercised by the "
     "bounded stand-ins on 24 wallet transactions, 6 signed objects with about 12000 mutations and 3 recorded pairs)",
     "more than 2 inputs / 2 outputs symbolically (the loop bodies are proved per element with arbitrary content; the bounded "
-    "stand-ins sign up to 5 inputs); spending time-locked script-hash outputs (`extra_keys` branch of Transaction.sign, "
-    "`Input.spend_time_lock`); segwit inputs",
+    "stand-ins sign up to 5 inputs); multi-signature script-hash spends; more than one extra key (the code takes the first value "
+    "of the dict); that the supplied extra key matches the key hash inside the time lock is the caller's obligation (the bounded "
+    "cases supply the matching key and the independent verifier checks it); segwit inputs",
     "the real address table: that `Ledger.get_private_key_for_address` returns the key whose public key hashes to the address is the "
     "database / key-derivation invariant of C06 (deductive part: duck-typed table; bounded part: the real Ledger + sqlite Database)",
     "channel public keys stored DER-wrapped (asn1crypto path of Channel.public_key_bytes) and the legacy claim parser "
@@ -1800,7 +2012,8 @@ NOT_DECIDED = [
 ]
 ASSUMPTIONS = [
     "no input of a wallet-signed transaction spends the null outpoint (that is a coinbase input, whose script slot holds raw bytes)",
-    "deductive part: spent outputs of Transaction.sign are pay-to-pubkey-hash; leftover input signatures are at most 75 bytes and "
+    "deductive part: spent outputs of Transaction.sign are pay-to-pubkey-hash or (sign.extra-keys) pay-to-script-hash of a time-lock "
+    "script with a lock height in 1..2**31-1; leftover input signatures are at most 75 bytes and "
     "leftover public keys 33 bytes; output scripts of the sign proof and of the 2x2 pre-image shape are below 253 bytes (every "
     "compact-size range of input and output scripts is covered by the other shapes); channel keys are 33-byte compressed keys; "
     "message bytes are at most 60000 bytes; channel signatures are 64 bytes, channel hashes 20 bytes",
